@@ -47,6 +47,10 @@ struct Shared {
     /// connection lifetimes with std::time::Instant, which a paused tokio clock does not virtualise)
     close_after_real_us: Option<u64>,
     close_polls: u32,
+    /// the handshake fails: after this much real time the transport answers the CONNECT with a failing CONNACK ("reject") or ends ("eof")
+    fail_after_real_us: Option<u64>,
+    fail_with_connack: bool,
+    connect_seen: bool,
 }
 
 struct ScriptedStream(Arc<Mutex<Shared>>);
@@ -65,6 +69,27 @@ impl AsyncRead for ScriptedStream {
         }
         if s.read_err { return Poll::Ready(Err(std::io::Error::from(std::io::ErrorKind::ConnectionReset))); }
         if s.eof { return Poll::Ready(Ok(())); }
+        if s.connect_seen {
+            if let Some(us) = s.fail_after_real_us {
+                s.close_polls += 1;
+                if s.close_polls <= 3 { cx.waker().wake_by_ref(); return Poll::Pending; }
+                let with_connack = s.fail_with_connack;
+                s.fail_after_real_us = None;
+                drop(s);
+                if us > 0 { std::thread::sleep(Duration::from_micros(us)); }
+                let mut s = self.0.lock().unwrap();
+                if with_connack {
+                    let bytes = rc::encode(&Packet::new(rc::CONNACK).with("session_present", V::Flag(false)).with("reason_code", V::U(0x87)), true, None);
+                    s.fed.extend(bytes.iter());
+                    let n = buf.remaining().min(bytes.len());
+                    buf.put_slice(&bytes[..n]);
+                    s.eof = true;
+                    return Poll::Ready(Ok(()));
+                }
+                s.eof = true;
+                return Poll::Ready(Ok(()));
+            }
+        }
         if s.connack_sent {
             if let Some(us) = s.close_after_real_us {
                 // let the listener callbacks of the CONNACK run first, then burn the real time, then end the connection
@@ -89,6 +114,10 @@ impl AsyncWrite for ScriptedStream {
         let mut n = data.len();
         if s.write_chunk > 0 { n = n.min(s.write_chunk); }
         s.written.extend_from_slice(&data[..n]);
+        if s.fail_after_real_us.is_some() && !s.connect_seen {
+            let framed = rc::frame(&s.written);
+            if framed.frames.iter().any(|(first, _, _, _)| first >> 4 == rc::CONNECT) { s.connect_seen = true; if let Some(w) = s.read_waker.take() { w.wake(); } }
+        }
         if s.auto_connack && !s.connack_sent {
             let framed = rc::frame(&s.written);
             if framed.frames.iter().any(|(first, _, _, _)| first >> 4 == rc::CONNECT) {
@@ -147,7 +176,8 @@ enum Step {
     /// what the next connection attempts yield: ok | refuse | hang
     ConnectPlan { #[serde(default = "d_ok")] mode: String },
     /// outcomes of the next attempts, one per attempt: refuse | hang | ok | up (accepted, CONNACK sent by the transport, stays up)
-    /// | life:<real us> (accepted, CONNACK sent by the transport, ended by the peer after that much real time); then ConnectPlan applies
+    /// | life:<real us> (accepted, CONNACK sent by the transport, ended by the peer after that much real time)
+    /// | reject:<real us> (accepted; after that much real time a failing CONNACK) | eof:<real us> (accepted; ends before any CONNACK); then ConnectPlan applies
     ConnectPlanSeq { modes: Vec<String> },
     /// let virtual time pass (the runtime auto-advances its paused clock when every task is idle)
     Run { #[serde(default = "d_ms")] ms: u64 },
@@ -318,6 +348,8 @@ async fn run_script(script: &Script, run_no: u64, tr: Trace) -> Trace {
                         s.write_stall = mode == "ok_stalled";
                         if mode == "up" { s.auto_connack = true; }
                         if let Some(us) = mode.strip_prefix("life:") { s.auto_connack = true; s.close_after_real_us = Some(us.parse().unwrap_or(0)); }
+                        if let Some(us) = mode.strip_prefix("reject:") { s.fail_after_real_us = Some(us.parse().unwrap_or(0)); s.fail_with_connack = true; }
+                        if let Some(us) = mode.strip_prefix("eof:") { s.fail_after_real_us = Some(us.parse().unwrap_or(0)); s.fail_with_connack = false; }
                     }
                     conns.lock().unwrap().push(shared.clone());
                     Ok(ScriptedStream(shared))
